@@ -1,5 +1,6 @@
 // allocsim scenarios: JSONPath and JMESPath.
 #include "scn.hpp"
+#include <memory>
 #include <jsoncons/json.hpp>
 #include <jsoncons_ext/jsonpath/jsonpath.hpp>
 #include <jsoncons_ext/jmespath/jmespath.hpp>
@@ -10,6 +11,41 @@ using sim::MVal;
 namespace allocsim {
 
 template <class Json> static std::string text(const Json& j) { std::string s; j.dump(s); return s; }
+
+// A compiled expression shared across evaluations must give the fault-free answer again after an evaluation failed.
+struct JsonPathReuseScn : Scenario {
+    json doc; std::string before, expected;
+    std::unique_ptr<jsonpath::jsonpath_expression<json>> e;
+    void setup(const MVal& p) override {
+        doc = json::parse(sim::plan_text(p, "doc")); before = text(doc);
+        e.reset(new jsonpath::jsonpath_expression<json>(jsonpath::make_expression<json>(p.gets("jsonpath"))));
+        expected = text(e->evaluate(doc)) + text(e->evaluate(doc, jsonpath::result_options::path | jsonpath::result_options::nodups));
+    }
+    std::string run() override { return text(e->evaluate(doc)) + text(e->evaluate(doc, jsonpath::result_options::path | jsonpath::result_options::nodups)); }
+    std::string check(bool) override {
+        if (text(doc) != before) return "const document changed by query";
+        std::string again = text(e->evaluate(doc)) + text(e->evaluate(doc, jsonpath::result_options::path | jsonpath::result_options::nodups));
+        if (again != expected) return "compiled JSONPath expression gives a different result after a failed evaluation: " + again.substr(0, 200) + " vs " + expected.substr(0, 200);
+        return "";
+    }
+};
+struct JmesPathReuseScn : Scenario {
+    json doc; std::string before, expected;
+    std::unique_ptr<jmespath::jmespath_expression<json>> e;
+    static std::string ev(const jmespath::jmespath_expression<json>& x, const json& d) { std::error_code ec; json r = x.evaluate(d, ec); return text(r) + (ec ? ec.message() : ""); }
+    void setup(const MVal& p) override {
+        doc = json::parse(sim::plan_text(p, "doc")); before = text(doc);
+        e.reset(new jmespath::jmespath_expression<json>(jmespath::make_expression<json>(p.gets("jmespath"))));
+        expected = ev(*e, doc);
+    }
+    std::string run() override { return ev(*e, doc); }
+    std::string check(bool) override {
+        if (text(doc) != before) return "const document changed by search";
+        std::string again = ev(*e, doc);
+        if (again != expected) return "compiled JMESPath expression gives a different result after a failed evaluation: " + again.substr(0, 200) + " vs " + expected.substr(0, 200);
+        return "";
+    }
+};
 
 template <int Mode> struct JsonPathScn : Scenario {
     json doc; std::string expr, before;
@@ -49,6 +85,8 @@ void register_query(std::vector<Reg>& r) {
     r.push_back({"jsonpath_callback", maker<JsonPathScn<3>>, "qdoc jsonpath"});
     r.push_back({"jsonpath_replace", maker<JsonPathScn<4>>, "qdoc jsonpath"});
     r.push_back({"jsonpath_select_paths", maker<JsonPathScn<5>>, "qdoc jsonpath"});
+    r.push_back({"jsonpath_reuse", maker<JsonPathReuseScn>, "qdoc jsonpath"});
+    r.push_back({"jmespath_reuse", maker<JmesPathReuseScn>, "qdoc jmespath"});
     r.push_back({"jmespath_search", maker<JmesPathScn<0>>, "qdoc jmespath"});
     r.push_back({"jmespath_compiled", maker<JmesPathScn<1>>, "qdoc jmespath"});
 }
